@@ -42,3 +42,6 @@ def run(ctx):
         C08.r08_1(ctx)
         mf = C08.r08_2(ctx, A)
         C08.r08_4(ctx, A, pv, mf, ctx.lib.fn(C08.SLICE16))
+        # "... of ALL preceding bytes" for every sink: the rolling sum must be fed exactly the bytes the sink accepted (R07.1)
+        import rules.C07 as C07
+        C07.r07_1(ctx, A, pv)
